@@ -266,4 +266,37 @@ def headStates (snaps : List Snap) (rs : List Rec) : List (Ent × State) :=
       if sts.length == es'.length then es'.zip (sts.map (·.2)) else es'.map fun e => (e, State.noop)
     | none => es'.map fun e => (e, State.noop)
 
+/-! ### the final loop of `Find`: branch entries meet the entries of the glob finder -/
+
+/-- an entry as that loop sees it: `key` stands for what `Rule.IsSame` compares (rule kind, error, first and last line) -/
+structure GE where
+  path : String
+  key : Nat
+  state : Nat
+  removed : Bool
+deriving DecidableEq, Repr, Inhabited
+
+def sameRule (e g : GE) : Bool := g.path == e.path && g.key == e.key
+
+/-- `for i, globEntry := range allEntries { if same { allEntries[i].State = entry.State; found = true; break } }` -/
+def setFirst (e : GE) : List GE → Option (List GE)
+  | [] => none
+  | g :: gs => if sameRule e g then some ({ g with state := e.state } :: gs) else (setFirst e gs).map (g :: ·)
+
+def mergeOne (all : List GE) (e : GE) : List GE :=
+  if e.removed then all ++ [e]
+  else match setFirst e all with
+    | some all' => all'
+    | none => all ++ [e]
+
+def mergeAll (all es : List GE) : List GE := es.foldl mergeOne all
+
+/-- what the loop should amount to: every glob entry takes the state of the branch entry for the same rule, if there is
+one; removed entries are added at the end -/
+def stateFrom (es : List GE) (g : GE) : GE :=
+  match es.find? (fun e => !e.removed && sameRule e g) with
+  | some e => { g with state := e.state }
+  | none => g
+
+
 end Pint.Git
